@@ -4,6 +4,7 @@ package main
 // obligations (DESIGN.md section 3).
 
 import (
+	"go/ast"
 	"fmt"
 	"go/token"
 	"go/types"
@@ -181,6 +182,8 @@ type Exec struct {
 	usedAssume  map[string]bool
 	// dry run (loop modification discovery)
 	dry      bool
+	dryYield bool // the dry run of the loop body passed a blocking point
+	dryNested bool // the dry run of the loop body reached a nested loop
 	dryLoop  *loopInfo
 	dryMods  map[string]bool
 	dryGMods map[string]bool
@@ -382,8 +385,10 @@ func (ex *Exec) jump(s *State, to *ssa.BasicBlock) {
 		fr.Block = to
 		fr.Idx = countPhis(to)
 		return
-	} else if li != nil && !fr.IsRoot {
-		ex.fail("loop in inlined function %s", fr.Fn)
+	} else if !fr.IsRoot && (li != nil || to.Dominates(from)) {
+		// a back edge inside a function that is verified inside its caller:
+		// the loop has no invariant to cut it with (fail closed, never unroll)
+		ex.fail("loop in inlined function %s: it needs a contract with a loop invariant", fr.Fn)
 	}
 	fr.Prev = from
 	fr.Block = to
@@ -399,6 +404,16 @@ func (ex *Exec) step(s *State, instr ssa.Instruction) []*State {
 	}
 	switch in := instr.(type) {
 	case *ssa.DebugRef:
+		// remember which value a source-level local denotes (loop invariants
+		// may name locals that are not loop-carried, e.g. range keys)
+		if id, ok := in.Expr.(*ast.Ident); ok && !in.IsAddr && fr.IsRoot {
+			if v, ok := fr.Regs[in.X]; ok {
+				if fr.Names == nil {
+					fr.Names = map[string]namedVal{}
+				}
+				fr.Names[id.Name] = namedVal{v, in.X.Type()}
+			}
+		}
 		fr.Idx++
 	case *ssa.Phi:
 		// find edge index
